@@ -39,6 +39,86 @@ def norm(d):
     return n
 
 
+def seq_records(d, out, tag):
+    """every sequence inside a dumped value -> {"ev":"Seq", len, repr} records for XrSeqRepr
+    (numbers beyond TLC's 32-bit integers: the record is left out)"""
+    def conv(r):
+        if not isinstance(r, dict):
+            return {"k": "?"}
+        k = r.get("k")
+        if k == "Range":
+            a, b, s = int(r["start"]), int(r["end"]), int(r["step"])
+            if max(abs(a), abs(b), abs(s)) > 2 ** 30:
+                raise OverflowError
+            return {"k": k, "start": a, "end": b, "step": s}
+        if k == "Array":
+            return {"k": k, "n": r["n"]}
+        if k == "Map":
+            return {"k": k, "of": conv(r["of"])}
+        if k == "Zip":
+            return {"k": k, "of": [conv(x) for x in r["of"]]}
+        if k == "Chain":
+            if any(m > 2 ** 30 for m in r["mid"]):
+                raise OverflowError
+            return {"k": k, "of": [conv(x) for x in r["of"]], "mid": list(r["mid"])}
+        if k == "Slice":
+            if r["start"] > 2 ** 30 or (r["end"] or 0) > 2 ** 30:
+                raise OverflowError
+            return {"k": k, "of": conv(r["of"]), "start": r["start"], "end": -1 if r["end"] is None else r["end"]}
+        return {"k": k}
+    if not isinstance(d, dict):
+        return
+    t = d.get("t")
+    if t == "seq":
+        try:
+            ln = d.get("len")
+            if ln is None or ln <= 2 ** 30:
+                out.append({"ev": "Seq", "len": -1 if ln is None else ln, "repr": conv(d.get("repr")), "_tag": tag})
+        except OverflowError:
+            pass
+        for x in d.get("v", []):
+            seq_records(x, out, tag)
+    elif t in ("struct", "stack"):
+        for x in d.get("v", []):
+            seq_records(x, out, tag)
+    elif t in ("opt", "union"):
+        seq_records(d.get("v"), out, tag)
+    elif t in ("map", "set"):
+        for e in d.get("entries", []):
+            seq_records(e.get("k"), out, tag)
+            seq_records(e.get("v"), out, tag)
+
+
+def check_seq_reprs(chk, records, sources, name):
+    """XrSeqRepr decides the representation invariants of every recorded sequence"""
+    seen, uniq = set(), []
+    for r in records:
+        key = json.dumps({k: v for k, v in r.items() if not k.startswith("_")}, sort_keys=True)
+        if key not in seen:
+            seen.add(key)
+            uniq.append(r)
+    for r in vf.accept_records(chk, "XrSeqRepr", uniq, name):
+        job, bind = r["_tag"]
+        rec = {k: v for k, v in r.items() if not k.startswith("_")}
+        chk.violation("sequence %s: representation %s violates the invariants of XrSeqRepr (reported length %s)" %
+                      (bind, json.dumps(rec["repr"])[:300], rec["len"]),
+                      {"kind": "seq-repr", "source": sources.get(job, ""), "binding": bind, "record": rec},
+                      finding_key="seqrepr:" + _repr_shape(rec["repr"]))
+    chk.part("representations", sequences=len(records), distinct=len(uniq))
+    return len(uniq)
+
+
+def _repr_shape(r):
+    if not isinstance(r, dict):
+        return "?"
+    of = r.get("of")
+    if isinstance(of, list):
+        return "%s(%s)" % (r.get("k"), ",".join(_repr_shape(x) for x in of))
+    if isinstance(of, dict):
+        return "%s(%s)" % (r.get("k"), _repr_shape(of))
+    return str(r.get("k"))
+
+
 def run_pool(chk, module, cfg, name, n_programs, depth, seed, prelude="", kind="pool", limits=None, max_elems=64,
              post=None, finding_key=None):
     """simulate `module`, replay every behaviour. Returns list of (case, observation)."""
